@@ -62,6 +62,8 @@ pub struct RunCtx {
     /// shuttle task id -> ordinal of the spawn call that created it (recorded by the new task
     /// itself when it starts; the ordinal is taken at the spawn call)
     pub spawn_ordinal: BTreeMap<usize, u64>,
+    /// shuttle task id -> (task id of the spawner, event sequence number at the spawn call)
+    pub spawn_parent: BTreeMap<usize, (usize, u64)>,
 }
 
 thread_local! {
@@ -109,6 +111,11 @@ pub fn panicking_task() -> Option<usize> {
 
 pub fn spawned_count() -> u64 {
     with_ctx(|c| c.spawned)
+}
+
+/// (spawner task id, event sequence at the spawn call) of `task`.
+pub fn spawn_parent_of(task: usize) -> Option<(usize, u64)> {
+    with_ctx(|c| c.spawn_parent.get(&task).copied())
 }
 
 /// Ordinal of the spawn call that created `task` (None for the main task or a task that has not
@@ -291,13 +298,15 @@ pub mod thread {
             T: Send + 'static,
         {
             let name = self.name.clone().unwrap_or_else(|| "<unnamed>".to_string());
-            let ordinal = crate::with_ctx(|c| {
+            let parent = crate::current_task();
+            let (ordinal, spawn_seq) = crate::with_ctx(|c| {
                 c.spawned += 1;
-                c.spawned
+                (c.spawned, c.seq)
             });
             let inner = self.inner.spawn(move || {
                 crate::with_ctx(|c| {
                     c.spawn_ordinal.insert(crate::current_task(), ordinal);
+                    c.spawn_parent.insert(crate::current_task(), (parent, spawn_seq));
                 });
                 let r = catch_unwind(AssertUnwindSafe(f));
                 if let Err(p) = &r {
